@@ -313,3 +313,30 @@ func TestFlattenRehomesGo(t *testing.T) {
 		t.Fatalf("closed %v, received %v: not the same variable", closed, received)
 	}
 }
+
+// The overlay rewrites a loop over strings.SplitSeq into the slice loop it
+// stands for, on the same line, and leaves other range-over-func loops alone.
+func TestSeqOverlay(t *testing.T) {
+	dir := t.TempDir()
+	src := "package x\n\nimport (\n\t\"iter\"\n\tstr \"strings\"\n)\n\nfunc F(s string, it iter.Seq[string]) int {\n\tn := 0\n\tfor part := range str.SplitSeq(s, \".\") {\n\t\tn += len(part)\n\t}\n\tfor v := range it {\n\t\tn += len(v)\n\t}\n\tfor i := range str.Split(s, \",\") {\n\t\tn += i\n\t}\n\treturn n\n}\n"
+	file := filepath.Join(dir, "x.go")
+	if err := os.WriteFile(file, []byte(src), 0o644); err != nil {
+		t.Fatal(err)
+	}
+	ov := seqOverlay(dir)
+	if len(ov) != 1 {
+		t.Fatalf("want one rewritten file, got %d", len(ov))
+	}
+	for _, b := range ov {
+		got := string(b)
+		if !strings.Contains(got, "for _, part := range str.Split(s, \".\") {") {
+			t.Fatalf("loop not rewritten:\n%s", got)
+		}
+		if !strings.Contains(got, "for v := range it {") || !strings.Contains(got, "for i := range str.Split(s, \",\") {") {
+			t.Fatalf("other loops changed:\n%s", got)
+		}
+		if strings.Count(got, "\n") != strings.Count(src, "\n") {
+			t.Fatal("line structure changed")
+		}
+	}
+}
